@@ -192,11 +192,14 @@ impl Shared {
             ptr::from_ref(&args).cast(),
             size_of::<libc::io_uring_getevents_arg>(),
         ));
+        // NOTE: also wake the blocked futures if we hit a timeout (or got
+        // interrupted). The submission queue might have room, without the
+        // kernel having submitted anything in this call, e.g. because a previous
+        // call already submitted everything, but not all blocked futures could
+        // be awoken at that time.
+        self.wake_blocked_futures();
         match result {
-            Ok(n) => {
-                self.wake_blocked_futures();
-                Ok(n.cast_unsigned())
-            }
+            Ok(n) => Ok(n.cast_unsigned()),
             // Hit a timeout or got interrupted, we can ignore it.
             Err(ref err) if matches!(err.raw_os_error(), Some(libc::ETIME | libc::EINTR)) => Ok(0),
             Err(err) => Err(err),
